@@ -76,9 +76,13 @@ Theorem C05_blinded_submit_from_relay_given_signed_block :
 Proof. exact blinded_submit_from_relay. Qed.
 Print Assumptions C05_blinded_submit_from_relay_given_signed_block.
 
-(* 4b. Every request to a relay, answered or not, carries precisely the signed blinded block of the
-   duty's slot; it goes to a relay that can unblind and that returned the winning bid (or any relay
-   of the auction when configured so or when nobody won), at most three times per relay. *)
+(* 4b. Every request to a relay, answered or not, made up to the moment of the submission (or at
+   any time when nothing is submitted) carries precisely the signed blinded block of the duty's
+   slot; a relay that retries after another relay's block has been taken sends the version and no
+   block at all (unblindProposal clears the blinded container of the structure the retrying
+   goroutine reads; go-builder-client refuses such a request without contacting the relay).  Every
+   request goes to a relay that can unblind and that returned the winning bid (or any relay of the
+   auction when configured so or when nobody won), at most three times per relay. *)
 Theorem C05_relays_sent_signed_blinded_block :
   forall c e d i calls k st rq,
     nth_error (o_unblind (propose c e d)) i = Some calls ->
@@ -87,7 +91,9 @@ Theorem C05_relays_sent_signed_blinded_block :
       d_account d = Some acct /\ e_proposal e = POk pr /\ p_blinded pr = true
       /\ p_block pr = Some h /\ h_slot h = d_slot d /\ e_sig_block e = Some sig
       /\ signed_container (p_version pr) true = Some code
-      /\ rq = unblind_request (signed_proposal pr h sig code)
+      /\ (rq = unblind_request (signed_proposal pr h sig code)
+          \/ (rq = late_request (signed_proposal pr h sig code)
+              /\ exists t sp', o_submit (propose c e d) = Some (t, sp') /\ t < st))
       /\ In (sign_block_event c d acct h) (o_events (propose c e d))
       /\ e_auction e = AOk w a /\ In i (candidates c w a)
       /\ nth_error (e_relays e) i = Some rl /\ r_can rl = true
